@@ -526,6 +526,11 @@ func cmdCheck(writeBaseline bool, argv []string) int {
 	bySolver := map[string]int{}
 	solverSecs := 0.0
 	missingByFuncKind := map[string][]string{}
+	if os.Getenv("GOVC_DUMP") != "" {
+		for _, o := range obls {
+			fmt.Printf("DUMP %-8s %s\n", o.Status, o.ID)
+		}
+	}
 	for _, id := range bl.Obligations {
 		o := byID[id]
 		if o == nil {
@@ -685,7 +690,8 @@ func cmdCheck(writeBaseline bool, argv []string) int {
 		}
 	}
 	ev["coverage"] = map[string]any{
-		"obligations":              len(bl.Obligations),
+		"obligations":              len(bl.Obligations) - missingCount,
+		"baseline_obligations_not_generated": missingCount,
 		"discharged":               discharged,
 		"checker_cmd":              "govc check " + prop + " --tier " + *tier + "  (VCs from go/ssa of /repo's working tree; solvers z3-new 5.1.0, z3 4.8.12, cvc5 1.0.3)",
 		"trusted_base":             trusted,
